@@ -10,10 +10,10 @@ from ..core import Failure, Unit
 from ..oracles import graph as og
 
 PROPERTY = "C16"
-RULE = ("Cases = symmetric matrices (binary / weighted, arbitrary diagonal) from: complete enumeration of all "
+RULE = ("Cases = symmetric matrices (binary / positive / signed weights incl. +-1, arbitrary diagonal) from: complete enumeration of all "
         "labelled graphs up to n (exhaustive units), and Hypothesis strategies over forests, graphs with isolated "
         "nodes, sparse ER, structured families and 'late-merge' graphs (chains on low-index nodes joined only by edges "
-        "among high-index nodes, labels optionally shuffled), plus asymmetric matrices for the rejection clause. "
+        "among high-index nodes, labels optionally shuffled), plus asymmetric matrices (asymmetric support, or symmetric support with unequal weights) for the rejection clause. "
         "Oracle = BFS components of the symmetric support. Non-trivial = the graph has 2 <= m < n components and a "
         "component with >= 3 nodes (or, for rejection cases, the matrix is genuinely asymmetric); distinct by hash of the matrix.")
 BOUNDS = {"exhaustive_quick": "graphs n<=5", "exhaustive_thorough": "graphs n<=7", "random_n": "2..40"}
@@ -135,7 +135,7 @@ def late_merge(draw, nmax):
 
 @st.composite
 def cases(draw, nmax):
-    fam = draw(st.sampled_from(["er", "forest", "isolated", "late_merge", "late_merge", "structured", "asym", "copies_er"]))
+    fam = draw(st.sampled_from(["er", "forest", "isolated", "late_merge", "late_merge", "structured", "asym", "asym-weights", "copies_er"]))
     if fam == "er":
         n = draw(st.integers(2, nmax))
         A = draw(gen.er_adj(n, False, draw(st.sampled_from(["sparse", "sparse", "medium"]))))
@@ -159,6 +159,11 @@ def cases(draw, nmax):
         m = draw(st.integers(2, max(2, nmax // 3)))
         A = gen.block_diag(draw(gen.er_adj(m, False, "medium")), draw(gen.er_adj(m, False, "sparse")),
                            draw(gen.tree_adj(m)))
+    elif fam == "asym-weights":
+        # symmetric support, unequal weights on the two directions of one connection
+        n = draw(st.integers(2, min(nmax, 10)))
+        A = draw(gen.er_adj(n, False, "medium"))
+        A[0, 1] = A[1, 0] = True
     else:  # asym
         n = draw(st.integers(2, min(nmax, 10)))
         A = draw(gen.er_adj(n, True, "medium"))
@@ -166,11 +171,20 @@ def cases(draw, nmax):
             A = A.copy()
             A[0, 1] = not A[1, 0]
     n = len(A)
-    if fam != "asym":
+    if fam == "asym-weights":
+        W = draw(gen.weights_for(A, draw(st.sampled_from(["dyadic", "signed"])), False))
+        W[0, 1] = 0.75
+        W[1, 0] = draw(st.sampled_from([0.25, -0.75, 0.5]))
+        if draw(st.booleans()):
+            W = gen.apply_perm(W, draw(gen.perm(n)))
+    elif fam != "asym":
         if draw(st.booleans()):
             A = gen.apply_perm(A, draw(gen.perm(n)))
-        wk = draw(st.sampled_from(["bin", "dyadic", "int"]))
-        W = draw(gen.weights_for(A, wk, False))
+        wk = draw(st.sampled_from(["bin", "dyadic", "int", "signed", "pm1"]))
+        if wk == "pm1":
+            W = np.sign(draw(gen.weights_for(A, "signed", False)))
+        else:
+            W = draw(gen.weights_for(A, wk, False))
     else:
         W = draw(gen.weights_for(A, draw(st.sampled_from(["bin", "dyadic"])), True))
     dg = draw(st.sampled_from(["zero", "zero", "full", "mixed"]))
